@@ -13,6 +13,15 @@ Driver glue for `gorwp.run` records (C19).
   code instead (`connect false`, reader `.whole`, over-limit header only logged, a permanent stall of the single loop
   under feedback accepted; tag `B:model=pinned`) — for replays of the old findings.  A regression of the library to a
   pinned behaviour is therefore NE (model ≠ implementation) as well as H0.
+* When a broken frame ends the connection the log must be a prefix of the model's that contains everything but the last
+  `Gen.gorwpFromPanelCap` event messages (over-limit header) / everything (truncated frame): `mustItems`.
+* Tags that make tolerances and either-way acceptances visible in the evidence: `B:undecided` (all four items sent, panel
+  closed at once: either result of `Connect` accepted), `B:prefix-accepted[=n]` (n events right before an over-limit header
+  not dispatched), `B:tol:slow` (last invocation later than the scripted pauses + `slowMs`), `B:cut=quiet|deadline` (the
+  harness stopped listening without the counts of a loss-free run), `B:quiet>=…ms` (the script has a silence longer than the
+  reader's payload deadline), `B:panel-acks-heartbeat`.
+* The quiet-period scripts are compared untimed: that no silence ends the connection is `C19.quiet_period_harmless_coded`
+  for the configuration regenerated from the source; the driver expects every event after the silence and an open connection.
 -/
 namespace RawPanelVerif.Driver.Gorwp
 open RawPanelVerif RawPanelVerif.Wire RawPanelVerif.Gorwp RawPanelVerif.GorwpBridge
@@ -30,7 +39,7 @@ inductive RItem
   | burst (n id : Nat)
   | over (len : Nat)
   | trunc (n : Nat)
-  | wait
+  | wait (ms : Nat)
   | bind (k : Gorwp.Kind) (id : Nat)
   deriving Repr
 
@@ -80,9 +89,9 @@ def parseItemPlain (it : String) : Option RItem :=
     some (.msg { avail := some kv } 0)
   | 'x' :: 'o' :: rest => (String.ofList rest).toNat?.map .over
   | 'x' :: 't' :: rest => (String.ofList rest).toNat?.map .trunc
-  | 'w' :: _ => some .wait
-  | ['P'] => some .wait     -- the panel stops reading its socket
-  | ['R'] => some .wait     -- … reads again
+  | 'w' :: rest => some (.wait ((String.ofList rest).toNat?.getD 0))
+  | ['P'] => some (.wait 0)     -- the panel stops reading its socket
+  | ['R'] => some (.wait 0)     -- … reads again
   | 'K' :: k :: rest => do pure (.bind (← parseKind k) (← (String.ofList rest).toNat?))
   | _ => none
 
@@ -155,7 +164,7 @@ def modelHistory (strict : Bool) : List RItem → List OutMsg
   | .burst n id :: r => List.replicate n { events := [{ id, binary := some { pressed := true, edge := 0 } }] } ++ modelHistory strict r
   | .over len :: r => if len ≥ Gen.gorwpFrameLimit ∧ !strict then modelHistory strict r else []
   | .trunc _ :: _ => []
-  | .wait :: r => modelHistory strict r
+  | .wait _ :: r => modelHistory strict r
   | .bind .. :: r => modelHistory strict r
 
 /-- the run of registrations and events: what the reader forwards (filter `f`) in wire order, the harness's `Bind*`
@@ -166,7 +175,7 @@ def dynHistory (strict : Bool) (f : AckFilter) : List RItem → List DynItem
   | .burst n id :: r => List.replicate n (DynItem.event { id, binary := some { pressed := true, edge := 0 } }) ++ dynHistory strict f r
   | .over len :: r => if len ≥ Gen.gorwpFrameLimit ∧ !strict then dynHistory strict f r else []
   | .trunc _ :: _ => []
-  | .wait :: r => dynHistory strict f r
+  | .wait _ :: r => dynHistory strict f r
   | .bind k id :: r => DynItem.bind k id :: dynHistory strict f r
 
 open Spec.Gorwp in
@@ -176,7 +185,7 @@ def specItems : List RItem → List Item
   | .burst n id :: r => List.replicate n (Item.event { id, binary := some (true, 0) }) ++ specItems r
   | .over len :: r => Item.broken (len ≥ Gen.gorwpFrameLimit) :: specItems r
   | .trunc _ :: r => Item.broken false :: specItems r
-  | .wait :: r => Item.wait :: specItems r
+  | .wait ms :: r => Item.wait ms :: specItems r
   | .bind k id :: r => Item.bind (toSKind k) id :: specItems r
 
 /-! ### observation -/
@@ -237,6 +246,8 @@ structure RObs where
   dataRaces : Nat := 0
   bindRace : Bool := false
   isInit : Bool := true
+  closed : Bool := false
+  cut : String := "-"
 
 def parseObs (impl : String) : Option RObs := do
   let kv := kvOf ((impl.splitOn " ").filter (· ≠ ""))
@@ -252,15 +263,56 @@ def parseObs (impl : String) : Option RObs := do
   pure { initOk := true, tconn := kvNat kv "tconn" 0, inv, acks := kvNat kv "acks" 0, fb := kvNat kv "fb" 0,
          model := g "model", serial := g "serial", name := g "name", tj := g "tj", sv := g "sv",
          tn := ((kvGet kv "tn").bind parseInt).getD (-1), tg := (kvGet kv "tg").getD "-", tf := (kvGet kv "tf").getD "-", av, tlast := kvNat kv "tlast" 0,
-         dataRaces := kvNat kv "datarace" 0, bindRace := kvNat kv "bindrace" 0 == 1, isInit := kvNat kv "isinit" 1 == 1 }
+         dataRaces := kvNat kv "datarace" 0, bindRace := kvNat kv "bindrace" 0 == 1, isInit := kvNat kv "isinit" 1 == 1,
+         closed := kvNat kv "closed" 0 == 1, cut := (kvGet kv "cut").getD "-" }
 
 def isPrefixOf {α} [BEq α] : List α → List α → Bool
   | [], _ => true
   | _, [] => false
   | a :: as, b :: bs => a == b && isPrefixOf as bs
 
-/-- does the observation equal the model's outputs for the reader variant `strict` / `f`? -/
-def agrees (b : Bindings) (initv : String) (items : List RItem) (fb : Bool) (o : RObs) (strict : Bool) (f : AckFilter) : Bool × Bool :=
+/-- the items before the first frame that ends the connection (`strict`: an over-limit header does) -/
+def beforeEnd (strict : Bool) : List RItem → List RItem
+  | [] => []
+  | .trunc _ :: _ => []
+  | .over len :: r => if len ≥ Gen.gorwpFrameLimit ∧ !strict then .over len :: beforeEnd strict r else []
+  | x :: r => x :: beforeEnd strict r
+
+def endsTruncated (strict : Bool) : List RItem → Bool
+  | [] => false
+  | .trunc _ :: _ => true
+  | .over len :: r => if len ≥ Gen.gorwpFrameLimit ∧ !strict then endsTruncated strict r else false
+  | _ :: r => endsTruncated strict r
+
+/-- number of event messages in a stretch of the script -/
+def msgCount : List RItem → Nat
+  | [] => 0
+  | .msg m _ :: r => (if m.events.isEmpty then 0 else 1) + msgCount r
+  | .burst n _ :: r => n + msgCount r
+  | _ :: r => msgCount r
+
+/-- on the REVERSED script: drop `n` event messages from the front (a burst is split) -/
+def dropMsgsRev : List RItem → Nat → List RItem
+  | l, 0 => l
+  | [], _ => []
+  | .burst k id :: r, n => if k ≤ n then dropMsgsRev r (n - k) else .burst (k - n) id :: r
+  | .msg m c :: r, n => if m.events.isEmpty then .msg m c :: dropMsgsRev r n else dropMsgsRev r (n - 1)
+  | x :: r, n => x :: dropMsgsRev r n
+
+/-- the script without its last `n` event messages -/
+def dropLastMsgs (n : Nat) (l : List RItem) : List RItem := (dropMsgsRev l.reverse n).reverse
+
+/-- what the model demands of the invocation log when a broken frame ends the connection: the reader pushes every
+message into `fromPanel` before it reads the next frame, so when it meets the broken frame all earlier messages are
+dispatched or queued — at most `Gen.gorwpFromPanelCap` of them can be dropped with the queue
+(`C19.at_most_queue_capacity_lost_at_broken_frame`); a truncated frame ends the connection only when the payload deadline
+has passed, long after the queue has been emptied: nothing is dropped. -/
+def mustItems (strict : Bool) (items : List RItem) : List RItem :=
+  let pre := beforeEnd strict items
+  if endsTruncated strict items then pre else dropLastMsgs Gen.gorwpFromPanelCap pre
+
+/-- does the observation equal the model's outputs for the reader variant `strict` / `f`?  (agrees, stalled, proper prefix accepted) -/
+def agrees (b : Bindings) (initv : String) (items : List RItem) (fb : Bool) (o : RObs) (strict : Bool) (f : AckFilter) : Bool × Bool × Bool :=
   let h := readerView f (modelHistory strict items)
   let all := (initMsgs initv).map (·.1) ++ h
   let st := finalState {} all
@@ -269,12 +321,30 @@ def agrees (b : Bindings) (initv : String) (items : List RItem) (fb : Bool) (o :
   let stateOk := o.tg = o.tf ∧ o.tj = st.topoSrc ∧ o.model = st.model ∧ o.serial = st.serial ∧ o.name = st.name ∧ o.tj = st.topoJSON ∧ o.sv = st.topoSVG
     ∧ (o.av.all (fun (k, v) => lookupAvail st k = some v)) ∧ (st.avail.all (fun (k, _) => (o.av.find? (·.1 = k)).isSome))
     ∧ o.isInit = isInitialized st
-  -- a broken frame shuts the client down: messages queued right before it may be dropped (a prefix is dispatched)
+  -- a broken frame shuts the client down: messages queued right before it may be dropped (a prefix is dispatched, and at
+  -- least what cannot have been in the queue any more)
   let endsBroken := items.any (fun i => match i with | .trunc _ => true | .over len => strict ∨ len < Gen.gorwpFrameLimit | _ => false)
-  let full := if endsBroken then isPrefixOf o.inv inv else decide (o.inv = inv) ∧ o.acks = acks h ∧ stateOk
+  let must := dispatchDyn b (dynHistory strict f (mustItems strict items))
+  let full := if endsBroken then isPrefixOf o.inv inv ∧ isPrefixOf must o.inv else decide (o.inv = inv) ∧ o.acks = acks h ∧ stateOk ∧ !o.closed
   -- pinned loop: with feedback the loop may block for good once more than `cap` sends were queued
   let stalled := fb ∧ o.inv.length < inv.length ∧ isPrefixOf o.inv inv ∧ o.inv.length ≥ 1
-  (full, stalled)
+  (full, stalled, endsBroken ∧ o.inv.length < inv.length)
+
+/-- scripted pauses of a history, ms -/
+def pausesMs : List RItem → Nat
+  | [] => 0
+  | .wait ms :: r => ms + pausesMs r
+  | .trunc _ :: r => 2500 + pausesMs r
+  | _ :: r => pausesMs r
+
+def longestPause : List RItem → Nat
+  | [] => 0
+  | .wait ms :: r => max ms (longestPause r)
+  | _ :: r => longestPause r
+
+/-- HARNESS TOLERANCE (no verdict): the last invocation came later than the scripted pauses plus this many ms after the
+start of the history — reported as tag `B:tol:slow` -/
+def slowMs : Nat := 5000
 
 def step (cmd : String) (args : List String) (impl : String) : String :=
   if cmd ≠ "gorwp.run" then "ERR bad-record" else
@@ -288,6 +358,9 @@ def step (cmd : String) (args : List String) (impl : String) : String :=
   | none => "ERR bad-history"
   | some items =>
     let tags := s!"B:mode={mode} B:init={initv}" ++ (if fb then " B:feedback" else "") ++ (if race > 0 then s!" B:race={race}" else "")
+      ++ (if kvNat kv "pa" 0 = 1 then " B:panel-acks-heartbeat" else "")
+      -- a silence on the socket that outlasts the reader's payload deadline (the panel does not answer the client's heartbeat)
+      ++ (if longestPause items ≥ Gen.gorwpFrameTimeoutMs then s!" B:quiet>={Gen.gorwpFrameTimeoutMs}ms" else "")
     if impl.startsWith "skip:" then s!"EQ H1 B:{impl} {tags}" else
     if impl.startsWith "fatal:concurrent_map" then
       -- the process died (concurrent map access detected by the Go runtime): outside the model, property false
@@ -301,11 +374,21 @@ def step (cmd : String) (args : List String) (impl : String) : String :=
         { ascii := mode = "asc",
           initItems := (initMsgs initv).flatMap (fun (m, n) => (toItems m).map (fun i => match i with | .topo j s _ => Spec.Gorwp.Item.topo j s n | x => x)),
           initEnded := initEnds initv ∧ !(initv = "stall" ∧ mode = "asc"),
-          bind := toSBindings b, feedback := fb, hist := specItems items }
+          -- the scripted ASCII panel leaves the mode probe unanswered: the detector's whole probe deadline passes before the request goes out
+          preWindowMs := if mode = "asc" then Gen.detectorProbeTimeoutMs else 0,
+          bind := toSBindings b, feedback := fb, hist := specItems items,
+          -- one event per message in these scripts: the incoming queue holds `gorwpFromPanelCap` of them
+          lossBound := some Gen.gorwpFromPanelCap }
       let so : Spec.Gorwp.Obs :=
         { initOk := o.initOk, tconn := o.tconn, inv := o.inv.map toSInv, acks := o.acks, model := o.model, serial := o.serial,
-          name := o.name, tj := o.tj, sv := o.sv, tn := o.tn, tg := o.tg, tf := o.tf, av := o.av, tlast := o.tlast, dataRaces := o.dataRaces, bindRace := o.bindRace }
+          name := o.name, tj := o.tj, sv := o.sv, tn := o.tn, tg := o.tg, tf := o.tf, av := o.av, tlast := o.tlast, dataRaces := o.dataRaces, bindRace := o.bindRace, closed := o.closed }
       let hs := match Spec.Gorwp.check sc so with | none => "H1" | some c => s!"H0:{c}"
+      -- tolerances and either-way acceptances made visible
+      let tags := tags
+        ++ (if Spec.Gorwp.undecided sc then " B:undecided" else "")
+        ++ (match (if o.initOk then Spec.Gorwp.prefixAccepted sc so.inv else none) with | some n => s!" B:prefix-accepted={n}" | none => "")
+        ++ (if o.initOk ∧ o.tlast > pausesMs items + slowMs then " B:tol:slow" else "")
+        ++ (if o.cut = "quiet" ∨ o.cut = "deadline" then s!" B:cut={o.cut}" else "")
       -- model: Connect's result = `connect` on one of the possible courses of the initialisation window; the code as it is
       -- (a cancelled context is an error unless initialised) unless the pinned model was asked for
       let pinned := pinnedModel
@@ -327,8 +410,8 @@ def step (cmd : String) (args : List String) (impl : String) : String :=
         -- line `ack`).  Pinned: the header is only logged; the binary reader drops every message with flow field ACK.
         let strict := !pinned
         let f : AckFilter := if mode = "asc" then .none else if pinned then .whole else .bare
-        let (full, stall) := agrees b initv items fb o strict f
-        if full then s!"EQ {hs} {tags}{ptag}"
+        let (full, stall, prefixOnly) := agrees b initv items fb o strict f
+        if full then s!"EQ {hs} {tags}{ptag}" ++ (if prefixOnly ∧ (Spec.Gorwp.prefixAccepted sc so.inv).isNone then " B:prefix-accepted" else "")
         else if pinned ∧ stall then s!"EQ {hs} {tags}{ptag} B:stalled@{o.inv.length}"
         else
           let inv := dispatchDyn b (dynHistory strict f items)
